@@ -47,12 +47,13 @@ VARIABLES
   \* ---- ghosts in the vocabulary of C04: the set of outstanding note-ons with arrival stamps
   outs,    \* set of <<stamp, note>>
   stamp,
-  nm       \* number of note messages (note-on, note-off, All-Notes-Off) applied so far
+  nm,      \* number of note messages (note-on, note-off, All-Notes-Off) applied so far
+  dflt     \* power-on controller state [cc, porta, sust]: what a new receiver shows and controller 121 restores
 
 wireVars  == <<rs, d1>>
 ctlVars   == <<pb, cc, porta, sust>>
 noteVars  == <<held, gate, rise, fall, note, vel, over, outs, stamp, nm>>
-modeVars  == <<retrig, prio>>
+modeVars  == <<retrig, prio, dflt>>
 voiceVars == <<chan, noteVars, ctlVars, modeVars>>
 vars      == <<wireVars, voiceVars>>
 
@@ -116,9 +117,9 @@ AllNotesOff ==
 
 ResetControllers ==
   /\ pb' = 8192
-  /\ cc' = CcZero
-  /\ porta' = TRUE
-  /\ sust' = TRUE
+  /\ cc' = dflt.cc
+  /\ porta' = dflt.porta
+  /\ sust' = dflt.sust
   /\ UNCHANGED <<chan, noteVars, modeVars>>
 
 CcField(k) == CASE k = 1  -> "mod"
@@ -189,16 +190,18 @@ PollRising  == /\ rise' = FALSE
 PollFalling == /\ fall' = FALSE
                /\ UNCHANGED <<wireVars, chan, held, gate, rise, note, vel, over, outs, stamp, nm, ctlVars, modeVars>>
 SetRetrig(m) == /\ retrig' = m
-                /\ UNCHANGED <<wireVars, chan, noteVars, ctlVars, prio>>
+                /\ UNCHANGED <<wireVars, chan, noteVars, ctlVars, prio, dflt>>
 SetPrio(p)   == /\ prio' = p
-                /\ UNCHANGED <<wireVars, chan, noteVars, ctlVars, retrig>>
+                /\ UNCHANGED <<wireVars, chan, noteVars, ctlVars, retrig, dflt>>
+
+AsBuiltDflt == [cc |-> CcZero, porta |-> TRUE, sust |-> TRUE]
 
 InitFor(c) ==
   /\ rs = 0 /\ d1 = -1
   /\ chan = IF c > 15 THEN 15 ELSE c
   /\ held = <<>> /\ gate = FALSE /\ rise = FALSE /\ fall = FALSE
   /\ note = 0 /\ vel = 0 /\ pb = 8192 /\ cc = CcZero
-  /\ porta = TRUE /\ sust = TRUE
+  /\ porta = TRUE /\ sust = TRUE /\ dflt = AsBuiltDflt
   /\ retrig = FALSE /\ prio = "last"
   /\ over = FALSE /\ outs = {} /\ stamp = 0 /\ nm = 0
 
@@ -208,7 +211,17 @@ New(c) ==
   /\ chan' = IF c > 15 THEN 15 ELSE c
   /\ held' = <<>> /\ gate' = FALSE /\ rise' = FALSE /\ fall' = FALSE
   /\ note' = 0 /\ vel' = 0 /\ pb' = 8192 /\ cc' = CcZero
-  /\ porta' = TRUE /\ sust' = TRUE
+  /\ porta' = TRUE /\ sust' = TRUE /\ dflt' = AsBuiltDflt
+  /\ retrig' = FALSE /\ prio' = "last"
+  /\ over' = FALSE /\ outs' = {} /\ stamp' = 0 /\ nm' = 0
+
+\* the same with the power-on controller state d observed on the new receiver (nobody states it)
+NewWith(c, d) ==
+  /\ rs' = 0 /\ d1' = -1
+  /\ chan' = IF c > 15 THEN 15 ELSE c
+  /\ held' = <<>> /\ gate' = FALSE /\ rise' = FALSE /\ fall' = FALSE
+  /\ note' = 0 /\ vel' = 0 /\ pb' = 8192 /\ cc' = d.cc
+  /\ porta' = d.porta /\ sust' = d.sust /\ dflt' = d
   /\ retrig' = FALSE /\ prio' = "last"
   /\ over' = FALSE /\ outs' = {} /\ stamp' = 0 /\ nm' = 0
 
